@@ -51,7 +51,9 @@ def corrupt(rng, moves):
     return out, kind
 
 
-def pos_line(start, moves):
+def pos_line(start, moves, four=False):
+    if start != 'startpos' and four and start.split()[4:] == ['0', '1']:
+        start = ' '.join(start.split()[:4])          # the same position as a 4-field FEN
     base = 'position startpos' if start == 'startpos' else 'position fen ' + start
     return base + (' moves ' + ' '.join(moves) if moves else '')
 
@@ -79,7 +81,7 @@ def make_session(rng, games):
             for k in range(0, len(moves) + 1, step):
                 lines.append(pos_line(start, moves[:k]))
         elif r < 0.5:
-            lines.append(pos_line(start, moves))
+            lines.append(pos_line(start, moves, four=rng.random() < 0.3))
         elif r < 0.85:
             bad, kind = corrupt(rng, moves)
             lines.append(pos_line(start, bad))
